@@ -932,16 +932,17 @@ func guardedSearch(idx bleve.Index, req *bleve.SearchRequest) (*bleve.SearchResu
 		err error
 	}
 	ch := make(chan res, 1)
+	done := make(chan struct{})
 	go func() {
 		sr, err := idx.Search(req)
 		ch <- res{sr, err}
+		close(done)
 	}()
-	select {
-	case r := <-ch:
-		return r.sr, r.err
-	case <-time.After(20 * time.Second):
+	if !waitDone(done, 20*time.Second, 80*time.Second) {
 		return nil, errHang
 	}
+	r := <-ch
+	return r.sr, r.err
 }
 
 // run a searcher call with a watchdog: a searcher that loops forever must not hang the check
@@ -951,16 +952,17 @@ func guardedCall(f func() (*search.DocumentMatch, error)) (*search.DocumentMatch
 		err error
 	}
 	ch := make(chan res, 1)
+	done := make(chan struct{})
 	go func() {
 		dm, err := f()
 		ch <- res{dm, err}
+		close(done)
 	}()
-	select {
-	case r := <-ch:
-		return r.dm, r.err
-	case <-time.After(10 * time.Second):
+	if !waitDone(done, 10*time.Second, 40*time.Second) {
 		return nil, errHang
 	}
+	r := <-ch
+	return r.dm, r.err
 }
 
 func iidOf(engine string, id index.IndexInternalID) uint64 {
